@@ -22,7 +22,8 @@ RULE = ('Generated: one table (1-3 pressures x 1-3 temperatures x 2-5 wavenumber
         'with one or two wavenumber ranges and per-range temperature subsets; file names in each reader\'s own '
         'convention with plain or isotopologue molecule names; and a history of cache operations (set path, get, '
         'set_interpolation, clear_cache, second path with a different table, add_opacity).  Non-trivial = table '
-        'not constant along any axis and a history containing a mode change after a first load; distinct by hash.')
+        'not constant along any axis and a history containing a mode change after a first load; distinct by hash.'
+        ' HITRAN files include two ranges whose wavenumber points interleave (overlapping spans).')
 ASSUMPTIONS = [
     'units: pickle pressures in bar, HDF5 pressures in the declared unit, Exo-Transmit pressures in bar / wavelengths in metres / cross-sections in m2 with the reader\'s documented +1e-60 floor; HITRAN coefficients in cm5 (x1e-10 to SI); reference values are the GENERATED table in SI through the C04 reference interpolation (rtol 1e-9)',
     'sanitised name re-implemented from the docstring of sanitize_molecule_string: element symbols with their counts, everything else dropped; names outside each reader\'s naming convention (line-list tags glued to the molecule) are not generated',
